@@ -12,6 +12,7 @@ CONSTANTS
   TrueD <- DistDef
   QErr = 0
   CodeD = 0
+  HnswExact = 0
   ReAddOK = TRUE
   Ids = {1, 2}
   MaxOps = 5
